@@ -22,6 +22,7 @@ type Program struct {
 	Fset    *token.FileSet
 	Pkgs    map[string]*packages.Package // by import path
 	Funcs   map[string]*FuncInfo         // by key "pkg.Recv.Name" / "pkg.Name"
+	lockSets map[string]map[string]bool // receiverLocks memo
 	Specs   *SpecSet
 	ModPath string
 	pureMemo map[string]int
